@@ -25,11 +25,15 @@ def main():
     props = [json.loads(l) for l in open(os.path.join(HERE, "properties.jsonl"))]
     na_path = os.path.join(HERE, "tools", "not_applicable.json")
     na_reasons = json.load(open(na_path)) if os.path.exists(na_path) else {}
+    import subprocess
+
+    # only checks that are tracked by git (finished and reviewed) are registered; work in progress is not
+    tracked = set(subprocess.run(["git", "-C", HERE, "ls-files", "checks"], capture_output=True, text=True).stdout.split())
     checks, na = [], []
     for p in props:
         pid = p["id"]
         f = os.path.join(HERE, "checks", f"{pid}.py")
-        if not os.path.exists(f) or pid in na_reasons:
+        if not os.path.exists(f) or f"checks/{pid}.py" not in tracked or pid in na_reasons:
             na.append({"property_id": pid, "reason": na_reasons.get(pid, "check not built yet (work in progress; see DESIGN.md section 3 for the planned exploration)")})
             continue
         c = consts(f)
